@@ -288,8 +288,18 @@ func genPathCase(rng *core.Rand) string {
 		plain = plain[:i] + rng.Pick([]string{"x", "/", "A", ""}) + plain[i+1:]
 	}
 	keep := ""
-	if strings.Contains(fromPat, "%") || rng.Chance(1, 10) {
+	if rng.Chance(1, 10) {
 		keep = "/. %A"[:rng.Intn(6)]
+	}
+	if strings.Contains(fromPat, "%") && rng.Chance(4, 5) {
+		// keep escaped what the pattern spells escaped
+		for i := 0; i+2 < len(fromPat); i++ {
+			if fromPat[i] == '%' && isHex(fromPat[i+1]) && isHex(fromPat[i+2]) {
+				var b byte
+				fmt.Sscanf(fromPat[i+1:i+3], "%02x", &b)
+				keep += string([]byte{b})
+			}
+		}
 	}
 	raw := escapeFor(rng, plain, keep)
 	if !strings.HasPrefix(raw, "/") && !rng.Chance(1, 20) {
@@ -385,7 +395,7 @@ func genMalformed(rng *core.Rand) string {
 }
 
 func (prop) Generate(rng *core.Rand, tier string, emit func(string)) {
-	n := 14000
+	n := 30000
 	switch tier {
 	case "thorough":
 		n = 250000
